@@ -67,20 +67,20 @@ Lemma run_conv : forall code pc0 q e st r t vs ps, etype e <> None ->
   match for_conv q e st with
   | inl (w, st1) => exists b, stepn (length (gen_expr_casting e q)) code (boundary pc0 r t vs ps st)
       = MRunning (boundary (pc0 + length (gen_expr_casting e q)) (mk_regs w b (Machine.rc r) (Machine.rd r)) t vs ps st1)
-  | inr (Failed x q0 st') => exists k s', stepn k code (boundary pc0 r t vs ps st) = MError x q0 s' /\ mscreen s' = screen st'
+  | inr (Failed x q0 st') => exists k s', stepn k code (boundary pc0 r t vs ps st) = MError x q0 s' /\ of_mio (mscreen s') = screen st'
   | inr _ => True
   end.
 Proof.
   intros code pc0 q e st r t vs ps Ht Hc. unfold for_conv.
   destruct (eval e (vars st)) as [w st1|x q0] eqn:Ev.
   - destruct (convert_to q e w) as [w'|x] eqn:Ec.
-    + destruct (casting_value num_text is_negative e q code pc0 r t vs ps (vars st) (screen st) false w st1 w' Hc Ev Ec) as [b Hb].
+    + destruct (casting_value num_text is_negative e q code pc0 r t vs ps (vars st) (to_mio (screen st)) false w st1 w' Hc Ev Ec) as [b Hb].
       exists b. exact Hb.
-    + destruct (casting_error num_text is_negative e q code pc0 r t vs ps (vars st) (screen st) false w st1 x Ht Hc Ev Ec)
-        as (k & s' & _ & Hs & Hd & _). exists k, s'. split; assumption.
+    + destruct (casting_error num_text is_negative e q code pc0 r t vs ps (vars st) (to_mio (screen st)) false w st1 x Ht Hc Ev Ec)
+        as (k & s' & _ & Hs & Hd & _). apply (f_equal of_mio) in Hd; rewrite ?of_to_mio in Hd. exists k, s'. split; assumption.
   - unfold gen_expr_casting in Hc. apply code_at_app_l in Hc.
-    destruct (gen_expr_error num_text is_negative e code pc0 r t vs ps (vars st) (screen st) false x q0 Hc Ev)
-      as (k & s' & _ & Hs & Hd & _). exists k, s'. split; assumption.
+    destruct (gen_expr_error num_text is_negative e code pc0 r t vs ps (vars st) (to_mio (screen st)) false x q0 Hc Ev)
+      as (k & s' & _ & Hs & Hd & _). apply (f_equal of_mio) in Hd; rewrite ?of_to_mio in Hd. exists k, s'. split; assumption.
 Qed.
 
 (** the code between the bounds and the body, and after the body *)
@@ -231,8 +231,8 @@ Proof.
   assert (Loop : forall n s3 rr, Machine.rc rr = hi_v -> Machine.rd rr = VInteger 1%Z ->
     match for_loop1 f v p hi_v body n s3 with
     | Done st' => exists k r', stepn k code (boundary (S l0) rr t vs ps s3) = MRunning (boundary (S out) r' t vs ps st')
-    | Failed x q0 st' => exists k s', stepn k code (boundary (S l0) rr t vs ps s3) = MError x q0 s' /\ mscreen s' = screen st'
-    | StepZero q0 st' => exists k s', stepn k code (boundary (S l0) rr t vs ps s3) = MStepZero q0 s' /\ mscreen s' = screen st'
+    | Failed x q0 st' => exists k s', stepn k code (boundary (S l0) rr t vs ps s3) = MError x q0 s' /\ of_mio (mscreen s') = screen st'
+    | StepZero q0 st' => exists k s', stepn k code (boundary (S l0) rr t vs ps s3) = MStepZero q0 s' /\ of_mio (mscreen s') = screen st'
     | OutOfFuel => True
     end).
   { unfold for_test, gen_load_var in Htest. cbn [app] in Htest.
@@ -261,9 +261,9 @@ Proof.
     destruct (binop LessOrEqual (lookup e3 v) hi_v) as [t0|x] eqn:Eb.
     2:{ eexists 5, _. unfold boundary at 1.
         stp T0. stp T1. stp T2. stp T3.
-        rewrite stepn_one. unfold Machine.step. cbn [pc]. rewrite T4. unfold cur. cbn [rstack ra rb]. fold e3. rewrite Eb. split; reflexivity. }
+        rewrite stepn_one. unfold Machine.step. cbn [pc]. rewrite T4. unfold cur. cbn [rstack ra rb]. fold e3. rewrite Eb. split; [reflexivity|apply of_to_mio]. }
     assert (R6 : stepn 5 code (boundary (S l0) (mk_regs xa xb hi_v (VInteger 1%Z)) t vs ps s3)
-                 = MRunning (mk_m (S (S (S (S (S (S l0)))))) (mk_regs t0 hi_v hi_v (VInteger 1%Z) :: t) vs ps e3 (screen s3) false)).
+                 = MRunning (mk_m (S (S (S (S (S (S l0)))))) (mk_regs t0 hi_v hi_v (VInteger 1%Z) :: t) vs ps e3 (to_mio (screen s3)) false)).
     { unfold boundary at 1.
       stp T0. stp T1. stp T2. stp T3.
       fold e3. stpx T4 Eb. reflexivity. }
@@ -296,7 +296,7 @@ Proof.
           -- exact I.
         * eexists (8 + k + 6), _. rewrite (stepn_add _ _ (8 + k) 6), (stepn_add _ _ 8 k), R8, Hk.
           unfold boundary at 1. stp U0. stp U1. stp U2. fold e4. stp U3. stp U4.
-          rewrite stepn_one. unfold Machine.step at 1. cbn [pc]. rewrite U5. unfold cur. cbn [rstack ra rb]. rewrite Ep. split; reflexivity.
+          rewrite stepn_one. unfold Machine.step at 1. cbn [pc]. rewrite U5. unfold cur. cbn [rstack ra rb]. rewrite Ep. split; [reflexivity|apply of_to_mio].
       + destruct Hbody as (k & s' & Hk & Hd). exists (8 + k), s'. split; [|exact Hd]. rewrite stepn_add, R8. exact Hk.
       + destruct Hbody as (k & s' & Hk & Hd). exists (8 + k), s'. split; [|exact Hd]. rewrite stepn_add, R8. exact Hk.
       + exact I.
@@ -304,7 +304,7 @@ Proof.
       exists (5 + 2), (mk_regs t0 hi_v hi_v (VInteger 1%Z)). rewrite stepn_add, R6.
       stpx T5 Tt. stp Hout. reflexivity.
     - eexists (5 + 1), _. rewrite stepn_add, R6.
-      rewrite stepn_one. unfold Machine.step at 1. cbn [pc]. rewrite T5. unfold cur. cbn [rstack ra]. rewrite Tt. split; reflexivity. }
+      rewrite stepn_one. unfold Machine.step at 1. cbn [pc]. rewrite T5. unfold cur. cbn [rstack ra]. rewrite Tt. split; [reflexivity|apply of_to_mio]. }
   specialize (Loop f st2 (mk_regs (VInteger 1%Z) b2 hi_v (VInteger 1%Z)) eq_refl eq_refl).
   match goal with |- match ?L f ?S with _ => _ end => change L with (for_loop1 f v p hi_v body) end.
   destruct (for_loop1 f v p hi_v body f st2) as [s5|x q0 s5|q0 s5|].
@@ -479,17 +479,17 @@ Proof.
     unfold boundary at 1. fold hd. stp D0. stp D1. stp D2. stp D3. first [reflexivity | unfold boundary; do 2 f_equal; lia]. }
   destruct (binop NotEqual step_v (VInteger 0)) as [nz|x] eqn:Enz.
   2:{ eexists (la + 2 + lh + 1 + ls + 4 + 1), _. rewrite stepn_add, S4. unfold boundary at 1.
-      rewrite stepn_one. unfold Machine.step. cbn [pc]. rewrite D4. unfold cur. cbn [rstack ra rb]. rewrite Enz. split; reflexivity. }
+      rewrite stepn_one. unfold Machine.step. cbn [pc]. rewrite D4. unfold cur. cbn [rstack ra rb]. rewrite Enz. split; [reflexivity|apply of_to_mio]. }
   assert (S5 : stepn (la + 2 + lh + 1 + ls + 5) code (boundary pc0 r t vs ps st)
                = MRunning (boundary (S (S (S (S (S hd))))) (mk_regs nz (VInteger 0%Z) hi_v step_v) t vs ps st3)).
   { change 5 with (4 + 1) at 1. rewrite Nat.add_assoc, stepn_add, S4. unfold boundary at 1. stpx D4 Enz. first [reflexivity | unfold boundary; do 2 f_equal; lia]. }
   destruct (truthy nz) as [[|]|x] eqn:Tnz.
   3:{ eexists (la + 2 + lh + 1 + ls + 5 + 1), _. rewrite stepn_add, S5. unfold boundary at 1.
-      rewrite stepn_one. unfold Machine.step. cbn [pc]. rewrite D5. unfold cur. cbn [rstack ra rb]. rewrite Tnz. split; reflexivity. }
+      rewrite stepn_one. unfold Machine.step. cbn [pc]. rewrite D5. unfold cur. cbn [rstack ra rb]. rewrite Tnz. split; [reflexivity|apply of_to_mio]. }
   2:{ (* a zero step *)
       eexists (la + 2 + lh + 1 + ls + 5 + 3), _. rewrite stepn_add, S5. unfold boundary at 1.
       stpx D5 Tnz. stp Hkz.
-      rewrite stepn_one. unfold Machine.step. cbn [pc]. rewrite Hthrow. split; reflexivity. }
+      rewrite stepn_one. unfold Machine.step. cbn [pc]. rewrite Hthrow. split; [reflexivity|apply of_to_mio]. }
   assert (S6 : stepn (la + 2 + lh + 1 + ls + 5 + 2) code (boundary pc0 r t vs ps st)
                = MRunning (boundary (S l0) (mk_regs nz (VInteger 0%Z) hi_v step_v) t vs ps st3)).
   { rewrite stepn_add, S5. unfold boundary at 1. stpx D5 Tnz.
@@ -498,8 +498,8 @@ Proof.
   assert (Loop : forall n s3 rr, Machine.rc rr = hi_v -> Machine.rd rr = step_v ->
     match for_loop2 f v p hi_v step_v body n s3 with
     | Done st' => exists k r', stepn k code (boundary (S l0) rr t vs ps s3) = MRunning (boundary (S out) r' t vs ps st')
-    | Failed x q0 st' => exists k s', stepn k code (boundary (S l0) rr t vs ps s3) = MError x q0 s' /\ mscreen s' = screen st'
-    | StepZero q0 st' => exists k s', stepn k code (boundary (S l0) rr t vs ps s3) = MStepZero q0 s' /\ mscreen s' = screen st'
+    | Failed x q0 st' => exists k s', stepn k code (boundary (S l0) rr t vs ps s3) = MError x q0 s' /\ of_mio (mscreen s') = screen st'
+    | StepZero q0 st' => exists k s', stepn k code (boundary (S l0) rr t vs ps s3) = MStepZero q0 s' /\ of_mio (mscreen s') = screen st'
     | OutOfFuel => True
     end).
   { unfold for_sign, gen_load_var in Hsign. cbn [app] in Hsign.
@@ -550,8 +550,8 @@ Proof.
         end
       with
       | Done st' => exists k r', stepn k code (boundary (l0 + 22) regs0 (mk_regs t0 hi_v hi_v step_v :: t) vs ps (mk_state e3 (screen s3))) = MRunning (boundary (S out) r' t vs ps st')
-      | Failed x q0 st' => exists k s', stepn k code (boundary (l0 + 22) regs0 (mk_regs t0 hi_v hi_v step_v :: t) vs ps (mk_state e3 (screen s3))) = MError x q0 s' /\ mscreen s' = screen st'
-      | StepZero q0 st' => exists k s', stepn k code (boundary (l0 + 22) regs0 (mk_regs t0 hi_v hi_v step_v :: t) vs ps (mk_state e3 (screen s3))) = MStepZero q0 s' /\ mscreen s' = screen st'
+      | Failed x q0 st' => exists k s', stepn k code (boundary (l0 + 22) regs0 (mk_regs t0 hi_v hi_v step_v :: t) vs ps (mk_state e3 (screen s3))) = MError x q0 s' /\ of_mio (mscreen s') = screen st'
+      | StepZero q0 st' => exists k s', stepn k code (boundary (l0 + 22) regs0 (mk_regs t0 hi_v hi_v step_v :: t) vs ps (mk_state e3 (screen s3))) = MStepZero q0 s' /\ of_mio (mscreen s') = screen st'
       | OutOfFuel => True
       end).
     { intros t0 Tt.
@@ -576,25 +576,25 @@ Proof.
         + exact I.
       - eexists (k + 6), _. rewrite stepn_add, Hk.
         unfold boundary at 1. stp U0. stp U1. stp U2. fold e4. stp U3. stp U4.
-        rewrite stepn_one. unfold Machine.step at 1. cbn [pc]. rewrite U5. unfold cur. cbn [rstack ra rb]. rewrite Ep. split; reflexivity. }
+        rewrite stepn_one. unfold Machine.step at 1. cbn [pc]. rewrite U5. unfold cur. cbn [rstack ra rb]. rewrite Ep. split; [reflexivity|apply of_to_mio]. }
     (* the sign of the step *)
     destruct (binop Less step_v (VInteger 0)) as [negv|x] eqn:Eneg.
     2:{ eexists 4, _. unfold boundary at 1. stp G0. stp G1. stp G2.
-        rewrite stepn_one. unfold Machine.step. cbn [pc]. rewrite G3. unfold cur. cbn [rstack ra rb]. rewrite Eneg. split; reflexivity. }
+        rewrite stepn_one. unfold Machine.step. cbn [pc]. rewrite G3. unfold cur. cbn [rstack ra rb]. rewrite Eneg. split; [reflexivity|apply of_to_mio]. }
     assert (R4 : stepn 4 code (boundary sl (mk_regs xa xb hi_v step_v) t vs ps s3)
                  = MRunning (boundary (S (S (S (S sl)))) (mk_regs negv (VInteger 0%Z) hi_v step_v) t vs ps s3)).
     { unfold boundary at 1. stp G0. stp G1. stp G2. stpx G3 Eneg. first [reflexivity | unfold boundary; do 2 f_equal; lia]. }
     destruct (truthy negv) as [isneg|x] eqn:Tneg.
     2:{ eexists (4 + 1), _. rewrite stepn_add, R4. unfold boundary at 1.
-        rewrite stepn_one. unfold Machine.step. cbn [pc]. rewrite G4. unfold cur. cbn [rstack ra rb]. rewrite Tneg. split; reflexivity. }
+        rewrite stepn_one. unfold Machine.step. cbn [pc]. rewrite G4. unfold cur. cbn [rstack ra rb]. rewrite Tneg. split; [reflexivity|apply of_to_mio]. }
     destruct isneg.
     + (* negative step: counter >= limit *)
       destruct (binop GreaterOrEqual (lookup e3 v) hi_v) as [t0|x] eqn:Eb.
       2:{ eexists (4 + 6), _. rewrite stepn_add, R4. unfold boundary at 1.
           stpx G4 Tneg. stp G5. stp G6. stp G7. fold e3. stp G8.
-          rewrite stepn_one. unfold Machine.step. cbn [pc]. rewrite G9. unfold cur. cbn [rstack ra rb]. rewrite Eb. split; reflexivity. }
+          rewrite stepn_one. unfold Machine.step. cbn [pc]. rewrite G9. unfold cur. cbn [rstack ra rb]. rewrite Eb. split; [reflexivity|apply of_to_mio]. }
       assert (R6 : stepn (4 + 6) code (boundary sl (mk_regs xa xb hi_v step_v) t vs ps s3)
-                   = MRunning (mk_m (S (S (S (S (S (S (S (S (S (S sl)))))))))) (mk_regs t0 hi_v hi_v step_v :: t) vs ps e3 (screen s3) false)).
+                   = MRunning (mk_m (S (S (S (S (S (S (S (S (S (S sl)))))))))) (mk_regs t0 hi_v hi_v step_v :: t) vs ps e3 (to_mio (screen s3)) false)).
       { rewrite stepn_add, R4. unfold boundary at 1.
         stpx G4 Tneg. stp G5. stp G6. stp G7. fold e3. stp G8. stpx G9 Eb. first [reflexivity | do 2 f_equal; lia]. }
       destruct (truthy t0) as [[|]|x] eqn:Tt.
@@ -610,7 +610,7 @@ Proof.
         -- exact I.
       * exists (4 + 6 + 2), (mk_regs t0 hi_v hi_v step_v). rewrite stepn_add, R6. stpx G10 Tt. stp Hout. reflexivity.
       * eexists (4 + 6 + 1), _. rewrite stepn_add, R6.
-        rewrite stepn_one. unfold Machine.step. cbn [pc]. rewrite G10. unfold cur. cbn [rstack ra rb]. rewrite Tt. split; reflexivity.
+        rewrite stepn_one. unfold Machine.step. cbn [pc]. rewrite G10. unfold cur. cbn [rstack ra rb]. rewrite Tt. split; [reflexivity|apply of_to_mio].
     + (* positive step: counter <= limit *)
       assert (R5 : stepn (4 + 2) code (boundary sl (mk_regs xa xb hi_v step_v) t vs ps s3)
                    = MRunning (boundary tt (mk_regs negv (VInteger 0%Z) hi_v step_v) t vs ps s3)).
@@ -618,9 +618,9 @@ Proof.
       destruct (binop LessOrEqual (lookup e3 v) hi_v) as [t0|x] eqn:Eb.
       2:{ eexists (4 + 2 + 5), _. rewrite stepn_add, R5. unfold boundary at 1.
           stp T0. stp T1. stp T2. fold e3. stp T3.
-          rewrite stepn_one. unfold Machine.step. cbn [pc]. rewrite T4. unfold cur. cbn [rstack ra rb]. rewrite Eb. split; reflexivity. }
+          rewrite stepn_one. unfold Machine.step. cbn [pc]. rewrite T4. unfold cur. cbn [rstack ra rb]. rewrite Eb. split; [reflexivity|apply of_to_mio]. }
       assert (R6 : stepn (4 + 2 + 5) code (boundary sl (mk_regs xa xb hi_v step_v) t vs ps s3)
-                   = MRunning (mk_m (S (S (S (S (S tt))))) (mk_regs t0 hi_v hi_v step_v :: t) vs ps e3 (screen s3) false)).
+                   = MRunning (mk_m (S (S (S (S (S tt))))) (mk_regs t0 hi_v hi_v step_v :: t) vs ps e3 (to_mio (screen s3)) false)).
       { rewrite stepn_add, R5. unfold boundary at 1.
         stp T0. stp T1. stp T2. fold e3. stp T3. stpx T4 Eb. first [reflexivity | do 2 f_equal; lia]. }
       destruct (truthy t0) as [[|]|x] eqn:Tt.
@@ -637,7 +637,7 @@ Proof.
         -- exact I.
       * exists (4 + 2 + 5 + 2), (mk_regs t0 hi_v hi_v step_v). rewrite stepn_add, R6. stpx T5 Tt. stp Hout. reflexivity.
       * eexists (4 + 2 + 5 + 1), _. rewrite stepn_add, R6.
-        rewrite stepn_one. unfold Machine.step. cbn [pc]. rewrite T5. unfold cur. cbn [rstack ra rb]. rewrite Tt. split; reflexivity. }
+        rewrite stepn_one. unfold Machine.step. cbn [pc]. rewrite T5. unfold cur. cbn [rstack ra rb]. rewrite Tt. split; [reflexivity|apply of_to_mio]. }
   specialize (Loop f st3 (mk_regs nz (VInteger 0%Z) hi_v step_v) eq_refl eq_refl).
   match goal with |- match ?L f ?S with _ => _ end => change L with (for_loop2 f v p hi_v step_v body) end.
   destruct (for_loop2 f v p hi_v step_v body f st3) as [s5|x q0 s5|q0 s5|].
